@@ -95,8 +95,16 @@ func c15Gen(rt *rapid.T) wProg {
 			p.Ops = append(p.Ops, wOp{K: "disc", S: s})
 		case x < 85:
 			p.Ops = append(p.Ops, wOp{K: "reconn", S: s}, wOp{K: "sub", S: s, T: topicFor(s)})
-		case x < 94:
+		case x < 92:
 			p.Ops = append(p.Ops, wOp{K: "tick", N: gPick(rt, []int{500, 1500, 3100, 8500}, "ms")})
+		case x < 96:
+			// a store failure inside an invitation or a hang-up
+			t := topicFor(s)
+			if gPct(rt, 50) {
+				p.Ops = append(p.Ops, wOp{K: "fault", N: gInt(rt, 1, 3, "k")}, invite(s, t))
+			} else {
+				p.Ops = append(p.Ops, wOp{K: "fault", N: gInt(rt, 1, 3, "k")}, wOp{K: "note", S: s, T: t, A: "call", B: "hang-up", M: 1})
+			}
 		default:
 			p.Ops = append(p.Ops, wOp{K: "pub", S: s, T: topicFor(s)})
 		}
@@ -177,6 +185,7 @@ type c15Obs struct {
 	invites, accepts, endings, relayed, ignored, busy int
 	kinds   map[string]bool
 	known   func(*kit.Viol) bool
+	unsavedEnd map[string]bool // calls whose ending message could not be saved (store fault)
 }
 
 func (o *c15Obs) Before(w *wWorld, op *wOp) {
@@ -270,6 +279,9 @@ func (o *c15Obs) After(w *wWorld, st *wStep) *kit.Viol {
 	}
 	sort.Slice(frames, func(i, j int) bool { return frames[i].sess < frames[j].sess })
 
+	if st.Fired {
+		return o.afterFault(w, st, added)
+	}
 	expectEnd := map[string]string{} // route -> kinds of ending allowed in this step ("a|b")
 	expectAccept := map[string]bool{}
 	route := st.Route
@@ -551,6 +563,87 @@ func (o *c15Obs) After(w *wWorld, st *wStep) *kit.Viol {
 	return nil
 }
 
+// afterFault: a store call failed inside this step. What must be stored cannot be demanded, but the
+// call slot must still follow the life cycle: a refused invitation starts no call, and an event which
+// ends the call ends it even when the ending message could not be saved.
+func (o *c15Obs) afterFault(w *wWorld, st *wStep, added map[string][]c15Msg) *kit.Viol {
+	o.kinds["store-fault"] = true
+	route := st.Route
+	lt := w.liveTopics()[route]
+	hasCall := lt != nil && lt.HasCall
+	c := o.cur[route]
+	isInvite := st.Op.K == "pub" && st.Op.H != nil && st.Op.H["webrtc"] != nil && !st.Skipped
+	switch {
+	case isInvite:
+		code := st.code()
+		if code >= 200 && code < 300 && c == nil && w.cfg.Calls && strings.HasPrefix(route, "p2p") {
+			seq := c01Seq(st.reply())
+			callee := -1
+			for u := range w.users {
+				if u != st.User && w.routable(fmt.Sprintf("p%d", u), st.User) == route {
+					callee = u
+				}
+			}
+			content := ""
+			for _, m := range added[route] {
+				if m.seq == seq {
+					content = m.content
+				}
+			}
+			o.cur[route] = &c15Call{seq: seq, origSess: st.Sess, origUser: st.User, calleeSess: -1, calleeUser: callee, content: content, started: time.Now()}
+			o.started[route] = append(o.started[route], seq)
+			o.invites++
+			return nil
+		}
+		if (code >= 400 || code == 0) && c == nil && hasCall {
+			return kit.V("refused-invite-occupies-call-slot", "invitation by session %d on %s was answered %d after a store failure, yet the topic holds a call now", st.Sess, route, code)
+		}
+		return nil
+	case st.Op.K == "note" && st.Op.A == "call" && c != nil:
+		var req struct {
+			Note struct {
+				Seq int `json:"seq"`
+			} `json:"note"`
+		}
+		json.Unmarshal([]byte(st.Req), &req)
+		_, attached := o.preAtt[st.Sess][route]
+		participant := st.User == c.origUser || st.User == c.calleeUser
+		if st.Op.B == "hang-up" && req.Note.Seq == c.seq && participant && st.User == st.Login && !c.calleeGone {
+			valid := false
+			if c.calleeSess != -1 {
+				valid = st.Sess == c.origSess || st.Sess == c.calleeSess
+			} else {
+				valid = !(st.User == c.origUser && st.Sess != c.origSess)
+			}
+			_ = attached
+			if valid && hasCall {
+				return kit.V("call-not-ended-after-store-failure", "valid hang-up of call %s on %s by session %d met a store failure: the call is still held by the topic (every later invitation is answered busy)", c15Str(c), route, st.Sess)
+			}
+		}
+	}
+	// resynchronise the model with what the topic holds
+	if c != nil && !hasCall {
+		ended := false
+		for _, m := range added[route] {
+			if m.replace == fmt.Sprintf(":%d", c.seq) && m.webrtc != "accepted" {
+				ended = true
+			}
+		}
+		if !ended {
+			o.unsavedEnd[fmt.Sprintf("%s#%d", route, c.seq)] = true
+		}
+		o.last[route] = c.seq
+		delete(o.cur, route)
+	} else if c != nil {
+		for _, m := range added[route] {
+			if m.replace == fmt.Sprintf(":%d", c.seq) && m.webrtc == "accepted" {
+				c.accepted, c.calleeSess = true, st.Sess
+			}
+		}
+	}
+	return nil
+}
+
 func c15Str(c *c15Call) string {
 	if c == nil {
 		return "none"
@@ -581,6 +674,9 @@ func (o *c15Obs) Final(w *wWorld) *kit.Viol {
 					}
 				}
 			}
+			if o.unsavedEnd[fmt.Sprintf("%s#%d", r, q)] && end == 0 {
+				continue
+			}
 			if end != 1 || acc > 1 {
 				return kit.V(fmt.Sprintf("call-ended-%d-times", end), "call #%d on %s: %d 'accepted' and %d ending messages in the store after every session is gone and the timeout has passed", q, r, acc, end)
 			}
@@ -592,7 +688,7 @@ func (o *c15Obs) Final(w *wWorld) *kit.Viol {
 func c15Exec(t *testing.T, r *kit.Run) func(wProg) kit.Outcome {
 	return func(p wProg) kit.Outcome {
 		r.WAL(p)
-		obs := &c15Obs{att: newWAttach(), cur: map[string]*c15Call{}, last: map[string]int{}, started: map[string][]int{}, kinds: map[string]bool{}}
+		obs := &c15Obs{att: newWAttach(), cur: map[string]*c15Call{}, last: map[string]int{}, started: map[string][]int{}, kinds: map[string]bool{}, unsavedEnd: map[string]bool{}}
 		obs.known = func(v *kit.Viol) bool { return r.IsKnown(v.Sig) && r.Violation(v, p) }
 		var res wRunResult
 		fail := wInBubble(t, func() { res = wExec(&p, obs, nil) })
